@@ -389,7 +389,27 @@ def run_torch_tool(ns, env, options, hooks=None):
                 utt, feats = s.ds[i]
                 yield [utt], [feats]
 
+    class FileHandle:
+        """binary file object on the stub file system (os.fdopen / open of a path created by tempfile.mkstemp)"""
+
+        def __init__(s, path):
+            s.path = path
+
+        def __enter__(s):
+            return s
+
+        def __exit__(s, *a):
+            return False
+
+        def close(s):
+            pass
+
+        def flush(s):
+            pass
+
     def save(obj, path):
+        if isinstance(path, FileHandle):
+            path = path.path
         if 'step' in hooks:
             hooks['step']('save-begin', path)
         env.files[path] = ('partial', None)
@@ -414,7 +434,37 @@ def run_torch_tool(ns, env, options, hooks=None):
         if 'step' in hooks:
             hooks['step']('printed', a[0])
 
-    osmod = types.SimpleNamespace(path=types.SimpleNamespace(isdir=lambda d: True, join=lambda a, b: a + '/' + b), makedirs=lambda d: None)
+    def os_replace(src, dst):
+        # rename(2): atomic -- one step, before which only src and after which only dst exists
+        if src not in env.files:
+            raise FileNotFoundError(src)
+        env.files[dst] = env.files.pop(src)
+        if 'step' in hooks:
+            hooks['step']('replace', dst)
+
+    def os_remove(pth):
+        if pth not in env.files:
+            raise FileNotFoundError(pth)
+        del env.files[pth]
+        if 'step' in hooks:
+            hooks['step']('remove', pth)
+
+    def mkstemp(suffix='', prefix='tmp', dir=None, text=False):
+        # a fresh name on every call and in every run (the real one is random)
+        env.tmp_counter = getattr(env, 'tmp_counter', 0) + 1
+        name = '%s/%s%s%s' % (dir if dir is not None else 'tmp', prefix, 'r%06d' % env.tmp_counter, suffix)
+        env.files[name] = ('partial', None)
+        if 'step' in hooks:
+            hooks['step']('mkstemp', name)
+        return FileHandle(name), name
+
+    osmod = types.SimpleNamespace(path=types.SimpleNamespace(isdir=lambda d: True, join=lambda a, b: a + '/' + b, exists=lambda pth: pth in env.files,
+                                                             isfile=lambda pth: pth in env.files, basename=lambda pth: pth.rsplit('/', 1)[-1],
+                                                             dirname=lambda pth: pth.rsplit('/', 1)[0] if '/' in pth else ''),
+                                  makedirs=lambda d, **kw: None, replace=os_replace, rename=os_replace, remove=os_remove, unlink=os_remove,
+                                  fdopen=lambda fd, *a, **k: fd, close=lambda fd: None,
+                                  listdir=lambda d: sorted(k_[len(d) + 1:] for k_ in env.files if k_.startswith(d + '/')))
+    ns['tempfile'] = types.SimpleNamespace(mkstemp=mkstemp)
     ns['_signals_to_torch_feat_dir_parse_args'] = lambda args: options
     ns['os'] = osmod
     ns['print'] = fprint
